@@ -110,3 +110,9 @@ META["C05"] = {
     "note": "The permutation universe comes from the expansion code (checked by C07), selection and gRPC applicability are modelled independently; for in-process reference servers only TCP reachability is observed; server-mode deliveries are observable over cleartext HTTP/1.1 only.",
     "technique": "property-based black-box testing (rapid) with observing peer processes and a reference selection model, concurrency perturbation under -race",
 }
+
+META["C02"] = {
+    "text": "Whole test suites in the deterministic fragment are generated (all stream types, 0-4 requests/responses, repeated/mixed-case/binary headers and trailers, arbitrary payload sizes, errors with hostile messages and details) and run through the exported Run with all four in-process peers under a drawn config; any FAILED permutation is a disagreement between the derived expectation and the reference peers and shrinks to a minimal suite. A second generator and a native fuzz target throw mostly-valid suites with rare wild aspects at loading/expansion in all modes, where only a panic is a violation. Two recorded findings are excluded by construction and re-executed by a dedicated regression unit. Exploration by seeded generation with shrinking.",
+    "note": "A suite run costs ~1 s, so the quick tier samples ~80 suites (~10^3 permutations); half-duplex over HTTP/1.1 is exercised for the reference pair only; TLS/HTTP/3 belong to C01.",
+    "technique": "property-based end-to-end testing (rapid) with the runner's own verdict as oracle + crash-freedom generation and native fuzzing",
+}
